@@ -57,11 +57,15 @@ var nonFile = regexp.MustCompile(`[^A-Za-z0-9_.-]+`)
 func (r *runReport) finish() int {
 	base := loadBaseline(r.baselineFile)
 	baseSet := map[string]bool{}
+	// contract clauses proved in the baseline, whatever the return point: a refutation of such a clause at a return
+	// point the baseline did not have (an added early return) is a regression of that clause, not a new obligation
+	baseClause := map[string]bool{}
 	hasBase := false
 	if names, ok := base[r.prop]; ok {
 		hasBase = true
 		for _, n := range names {
 			baseSet[n] = true
+			baseClause[stripReturn(n)] = true
 		}
 	}
 	// structural hashes of the verification conditions proved when the baseline was written
@@ -99,9 +103,29 @@ func (r *runReport) finish() int {
 	var samples []sample
 	os.RemoveAll(filepath.Join(r.replayDir, r.prop))
 	os.MkdirAll(filepath.Join(r.replayDir, r.prop), 0o755)
+	var vcDump *os.File
+	if p := os.Getenv("VERIF_DUMP_VC"); p != "" {
+		vcDump, _ = os.Create(p)
+		defer vcDump.Close()
+	}
 	for _, o := range r.all {
 		if r.verbose {
 			fmt.Printf("  [%s] %s (%s %.2fs)\n", o.Status, o.Name, o.Solver, o.Time)
+		}
+		if vcDump != nil && !o.Cover {
+			fmt.Fprintf(vcDump, "%s\t%s\n", o.Name, o.VCHash())
+			if m := os.Getenv("VERIF_DUMP_VC_TERMS"); m != "" && o.Name == m {
+				fmt.Fprintf(vcDump, "GOAL %s\n", o.Goal.render(40))
+				if o.PC != nil {
+					fmt.Fprintf(vcDump, "PC %s\n", o.PC.render(40))
+				}
+				for _, f := range sortByCoarse(factClosure(append(append([]*Term{o.Goal, o.PC}, o.Parts...), o.Hyps...))) {
+					fmt.Fprintf(vcDump, "FACT %s %s\n", f.coarseHash(), f.render(40))
+				}
+				for _, h := range sortByCoarse(o.Hyps) {
+					fmt.Fprintf(vcDump, "HYP %s %s\n", h.coarseHash(), h.render(40))
+				}
+			}
 		}
 		seen[o.Name] = true
 		solverTime += o.Time
@@ -139,7 +163,7 @@ func (r *runReport) finish() int {
 				continue
 			}
 			path, confirmed := r.writeReplay(o)
-			if baseSet[o.Name] || !hasBase || confirmed || o.Definite {
+			if baseSet[o.Name] || (o.Kind == "post" && baseClause[stripReturn(o.Name)]) || !hasBase || confirmed || o.Definite {
 				sfx := ""
 				if !confirmed {
 					sfx = " no-failing-input-found"
